@@ -737,3 +737,102 @@ def pmap(fn_mod, fn_name, args, procs=None, timeout=300):
                 results[i] = ("err", "timeout (not started)")
             pending = []
     return results
+
+
+# ------------------------------------------------------------------------------------------
+# batch worker shared by c04 / c11 / c05
+# ------------------------------------------------------------------------------------------
+
+def worker_batch(arg):
+    """arg: dict(exe, mod, spec).  Runs mod.make_jobs(spec) on the implementation and the model, compares
+    the projections, runs mod.oracle(h) on every history.  Returns a summary dict."""
+    import hashlib
+    import importlib
+    logging.disable(logging.CRITICAL)
+    mod = importlib.import_module(arg["mod"])
+    jobs = mod.make_jobs(arg["spec"])
+    loop = new_loop()
+    out = {"n": 0, "steps": 0, "digests": [], "dist": {}, "disagree": [], "fails": [], "samples": [], "skipped": 0,
+           "impl_s": 0.0, "model_s": 0.0, "nfails": 0, "ndisagree": 0}
+    t0 = _time.time()
+    hists = []
+    for job in jobs:
+        start, items = job[0], job[1]
+        declined = job[2] if len(job) > 2 else ()
+        hists.append(run_history(loop, start, items, declined))
+    out["impl_s"] = _time.time() - t0
+    t0 = _time.time()
+    mres = [None] * len(hists)
+    if arg.get("exe"):
+        mres = core.Model(arg["exe"]).batch(model_lines(hists))
+    out["model_s"] = _time.time() - t0
+    for h, r in zip(hists, mres):
+        out["n"] += 1
+        out["steps"] += len(h.steps)
+        out["skipped"] += h.skipped
+        canon = repr((sorted((k, v) for k, v in h.start.items() if k != "prelude"), h.ops, h.declined))
+        nontriv = mod.nontrivial(h)
+        out["digests"].append((hashlib.md5(canon.encode()).digest()[:8], nontriv))
+        for k in mod.distribution(h):
+            out["dist"][k] = out["dist"].get(k, 0) + 1
+        if r is not None:
+            d = compare(h, r)
+            if d is not None:
+                out["ndisagree"] += 1
+                if len(out["disagree"]) < 5:
+                    out["disagree"].append({"case": case_of(h, d[0]), "projection": d[1], "impl": d[2], "model": d[3]})
+        for (i, what, cls) in mod.oracle(h):
+            out["nfails"] += 1
+            key = cls or "__unclassified__"
+            cnt = out.setdefault("fail_counts", {})
+            cnt[key] = cnt.get(key, 0) + 1
+            if cnt[key] <= (2 if cls else 20):
+                out["fails"].append((case_of(h, i), what, cls))
+        if len(out["samples"]) < 1 and nontriv:
+            out["samples"].append({"start": {k: v for k, v in h.start.items() if k != "prelude"},
+                                   "ops": [o if o[0] != 0 else [0, o[1][0], [tv for tv in o[1][1] if tv[0] in ("34", "36", "7", "16", "43", "123", "112")]]
+                                           for o in h.ops[:6]],
+                                   "impl_steps": [[s[0], [e if e[0] not in (0, 1) else [e[0], uncodes(e[1][0])] for e in s[1]], s[2][:5]]
+                                                  for s in h.steps[:6]]})
+    return out
+
+
+def run_specs(ctx, modname, specs, timeout=600):
+    """Distribute specs over worker processes; merge the summaries into ctx.  Returns merged totals."""
+    exe = ctx.model.exe if ctx.model else None
+    args = [{"exe": exe, "mod": modname, "spec": s} for s in specs]
+    res = pmap("harness.session_common", "worker_batch", args, timeout=timeout)
+    tot = {"n": 0, "steps": 0, "impl_s": 0.0, "model_s": 0.0, "skipped": 0}
+    for spec, r in zip(specs, res):
+        if r is None or r[0] != "ok":
+            raise RuntimeError("session worker failed on spec %r: %s" % (spec, r and r[1]))
+        o = r[1]
+        for k in tot:
+            tot[k] += o[k]
+        for dg, nt in o["digests"]:
+            ctx.evaluations += 1
+            if nt:
+                ctx.nontrivial.add(dg)
+        ctx.traces += o["n"]
+        for k, v in o["dist"].items():
+            ctx.count(k, v)
+        for d in o["disagree"]:
+            ctx.disagree(d["case"], d["impl"], d["model"], d["projection"])
+        if o["ndisagree"] > len(o["disagree"]):
+            ctx.notes.append("%d further disagreements in one batch not listed" % (o["ndisagree"] - len(o["disagree"])))
+        kept = {}
+        for case, what, cls in o["fails"]:
+            kept[cls] = kept.get(cls, 0) + 1
+            ctx.fail(case, what, cls)
+        for key, n in o.get("fail_counts", {}).items():
+            cls = None if key == "__unclassified__" else key
+            extra = n - kept.get(cls, 0)
+            if extra > 0:
+                if cls is not None and any(k.get("class") == cls for k in ctx.known):
+                    ctx.known_hits[cls] = ctx.known_hits.get(cls, 0) + extra
+                else:
+                    ctx.notes.append("%d further failures (class %s) not listed individually" % (extra, cls))
+        for smp in o["samples"]:
+            if len(ctx.samples) < 6:
+                ctx.samples.append(smp)
+    return tot
